@@ -6,7 +6,7 @@ from harness import graphs as G
 from harness import strategies as S
 from harness.core import Acc, Violation, lib, must, must_raise
 from harness.hyp import job_seed, run_property, scaled
-from props.gcommon import DTYPE_NAMES, compare_sets, pdag_codes, result_set, signed_copy, to_np
+from props.gcommon import DTYPE_NAMES, compare_sets, lib_debug, pdag_codes, result_set, signed_copy, to_np
 
 PROP = "C07"
 RULE = ("all_dags on every PDAG with acyclic directed part (p<=4 quick, p<=5 thorough: 765,664), mec (both check_chain "
@@ -149,6 +149,11 @@ def _check_ice(utils, P, A, want, case):
         if bool(got) != exp:
             raise Violation("ice_wrong", "is_consistent_extension(G=%s, P=%s) = %r, expected %r"
                             % (G.lists_from_rows(g), G.lists_from_rows(P), got, exp))
+        if (hash(g) + len(cands)) % 5 == 0:          # the tracing flag must not change the verdict
+            od = lib_debug(utils.is_consistent_extension, to_np(g), A)
+            if od is not None and bool(must(od, "is_consistent_extension(debug=True)")) != exp:
+                raise Violation("ice_wrong", "is_consistent_extension(G=%s, P=%s, debug=True) = %r, expected %r"
+                                % (G.lists_from_rows(g), G.lists_from_rows(P), od.value, exp))
 
 
 # ------------------------------------------------------------------------ jobs
